@@ -3,6 +3,7 @@ package main
 // Property checks: which functions and clauses decide a property, evidence, known findings, VIOLATION lines.
 
 import (
+	"golang.org/x/tools/go/ssa/ssautil"
 	"encoding/json"
 	"flag"
 	"fmt"
@@ -518,6 +519,7 @@ func specialObligations(w *World, ex *Exec, prop string) {
 		c18Obligations(w, ex)
 	}
 	if prop == "C17" {
+		wiringObligations(w, ex)
 		// every part of the stored state must be covered by a (proved) postcondition of ExportGenesis and of
 		// InitGenesis; a part that is not has no genesis field, so an export -> import loses it
 		for _, fnKey := range []string{"cctp.ExportGenesis", "cctp.InitGenesis"} {
@@ -588,4 +590,135 @@ func msgServerMethods(w *World) []string {
 	}
 	sort.Strings(out)
 	return out
+}
+
+// wiringObligations (C17): the module's genesis entry points in module.go must go through the functions under
+// contract - ValidateGenesis returns what GenesisState.Validate returns for the decoded state, InitGenesis hands the
+// decoded state and the module's keeper to cctp.InitGenesis, ExportGenesis encodes what cctp.ExportGenesis returns.
+// Decided on the SSA (no solver): JSON decoding itself is outside.
+func wiringObligations(w *World, ex *Exec) {
+	add := func(name string, ok bool, note string) {
+		o := &Obligation{Name: name, Kind: "pure", Props: propSet([]string{"C17"}), Goal: Bool(ok), Note: note}
+		if ok {
+			o.Res = SolverResult{Status: "unsat", Solver: "syntactic"}
+		} else {
+			o.Res = SolverResult{Status: "sat", Solver: "syntactic"}
+		}
+		ex.obls = append(ex.obls, o)
+	}
+	find := func(key string) *ssa.Function {
+		for fn := range ssautil.AllFunctions(w.prog) {
+			if isRepoFn(fn) && fn.Blocks != nil && fn.Synthetic == "" && fnName(fn) == key {
+				return fn
+			}
+		}
+		return nil
+	}
+	callsTo := func(fn *ssa.Function, callee string) []*ssa.Call {
+		var out []*ssa.Call
+		for _, b := range fn.Blocks {
+			for _, in := range b.Instrs {
+				if c, ok := in.(*ssa.Call); ok {
+					if sc := c.Call.StaticCallee(); sc != nil && fnName(sc) == callee {
+						out = append(out, c)
+					}
+				}
+			}
+		}
+		return out
+	}
+	// ValidateGenesis: every return is either an error path before validation (a non-nil error value built there)
+	// or returns the result of GenesisState.Validate on the decoded state
+	if fn := find("cctp.AppModuleBasic.ValidateGenesis"); fn == nil {
+		add("cctp.AppModuleBasic.ValidateGenesis#wiring@validate", false, "module.go has no ValidateGenesis")
+	} else {
+		calls := callsTo(fn, "types.GenesisState.Validate")
+		ok := len(calls) == 1
+		badNil := false
+		returnsCall := false
+		// a literal nil may be returned only where the validation result is known to be nil
+		knownNil := func(b *ssa.BasicBlock) bool {
+			for _, blk := range fn.Blocks {
+				if len(blk.Instrs) == 0 {
+					continue
+				}
+				iff, isIf := blk.Instrs[len(blk.Instrs)-1].(*ssa.If)
+				if !isIf {
+					continue
+				}
+				bo, isBin := iff.Cond.(*ssa.BinOp)
+				if !isBin || bo.X != ssa.Value(calls[0]) {
+					continue
+				}
+				if c, isC := bo.Y.(*ssa.Const); !isC || !c.IsNil() {
+					continue
+				}
+				switch bo.Op.String() {
+				case "!=":
+					if blk.Succs[1].Dominates(b) && len(blk.Succs[1].Preds) == 1 {
+						return true
+					}
+				case "==":
+					if blk.Succs[0].Dominates(b) && len(blk.Succs[0].Preds) == 1 {
+						return true
+					}
+				}
+			}
+			return false
+		}
+		for _, b := range fn.Blocks {
+			for _, in := range b.Instrs {
+				if r, isRet := in.(*ssa.Return); isRet && len(r.Results) == 1 {
+					if c, isConst := r.Results[0].(*ssa.Const); isConst && c.IsNil() {
+						if !ok || !knownNil(b) {
+							badNil = true
+						}
+						continue
+					}
+					if ok && r.Results[0] == ssa.Value(calls[0]) {
+						returnsCall = true
+					}
+				}
+			}
+		}
+		add("cctp.AppModuleBasic.ValidateGenesis#wiring@validate", ok && returnsCall && !badNil,
+			"ValidateGenesis must return the result of GenesisState.Validate on the decoded genesis, and nil only where that result is nil")
+	}
+	if fn := find("cctp.AppModule.InitGenesis"); fn == nil {
+		add("cctp.AppModule.InitGenesis#wiring@init", false, "module.go has no InitGenesis")
+	} else {
+		calls := callsTo(fn, "cctp.InitGenesis")
+		ok := len(calls) == 1
+		if ok {
+			// the keeper handed over is the module's own (a field load from the receiver)
+			_, fromField := calls[0].Call.Args[1].(*ssa.UnOp)
+			if fa, isF := calls[0].Call.Args[1].(*ssa.Field); isF {
+				_ = fa
+				fromField = true
+			}
+			ok = fromField
+		}
+		add("cctp.AppModule.InitGenesis#wiring@init", ok, "AppModule.InitGenesis must hand the decoded genesis and the module's keeper to cctp.InitGenesis, once")
+	}
+	if fn := find("cctp.AppModule.ExportGenesis"); fn == nil {
+		add("cctp.AppModule.ExportGenesis#wiring@export", false, "module.go has no ExportGenesis")
+	} else {
+		calls := callsTo(fn, "cctp.ExportGenesis")
+		ok := len(calls) == 1
+		if ok {
+			// its result is what gets encoded: it reaches an interface conversion that is an argument of the JSON encoder
+			used := false
+			for _, ref := range *calls[0].Referrers() {
+				if mi, isMI := ref.(*ssa.MakeInterface); isMI {
+					for _, r2 := range *mi.Referrers() {
+						if c2, isCall := r2.(ssa.CallInstruction); isCall && strings.Contains(calleeName(c2.Common()), "MarshalJSON") {
+							used = true
+						}
+					}
+				}
+			}
+			ok = used
+		}
+		add("cctp.AppModule.ExportGenesis#wiring@export", ok, "AppModule.ExportGenesis must encode exactly what cctp.ExportGenesis returns")
+	}
 }
